@@ -372,7 +372,9 @@ class Run:
         from . import simhttp, simthreads
         if kind == "rest":
             simhttp.install(self.sim)
-        sched = simthreads.ThreadSched(self.sc.get("sched_seed", 0))
+        sched = simthreads.ThreadSched(self.sc.get("sched_seed", 0),
+                                       preempt_prefix=self.world.outdir if self.sc.get("preempt_p") else None,
+                                       preempt_p=float(self.sc.get("preempt_p") or 0.0))
 
         def body(ai, a):
             def fn():
@@ -392,7 +394,7 @@ class Run:
         try:
             self.sim.ev("threads", n=len(self.sc["actors"]))
             sched.run([body(i, a) for i, a in enumerate(self.sc["actors"])], [a.get("start", 0.0) for a in self.sc["actors"]])
-            self.sim.ev("threads_done", switches=sched.switches)
+            self.sim.ev("threads_done", switches=sched.switches, preemptions=sched.preemptions)
         finally:
             if kind == "rest":
                 simhttp.uninstall()
